@@ -355,6 +355,58 @@ def l3_case(args):
     return args[:4] + tuple(args[5:7]), errs
 
 
+def l3b_case(args):
+    """partition oracle on a world with every assignment type (C02's pipeline world: unique, minor difference, ambiguous, inconsistent,
+       inconsistent_non_intronic, mono-exonic, intergenic, low MAPQ) under every pair of quantification strategies: for each feature the
+       per-group values of the grouped table (matrix and linear) sum to the value of the ungrouped table"""
+    gs, ts, scratch = args
+    from vlib import syn, run
+    from props import c02
+    w = c02.l2_world(1)
+    for i, r in enumerate(w["reads"]):
+        if not r.get("unmapped"):
+            r["name"] = "%s_%s" % (r["name"], ("gA", "gB", "A1")[i % 3])
+    d = os.path.join(scratch, "c09b_%s_%s" % (gs, ts))
+    shutil.rmtree(d, ignore_errors=True)
+    paths = syn.materialise(w, d)
+    out = os.path.join(d, "out")
+    rc = run.run_isoquant(run.base_argv(paths, out, extra=["--gene_quantification", gs, "--transcript_quantification", ts, "--read_group", "read_id:_",
+                                                          "--counts_format", "both", "--model_construction_strategy", "all"]),
+                          paths["home"], os.path.join(d, "o.txt"))
+    errs = []
+    if rc != 0:
+        errs.append(("run-failed", "exit %d: %s" % (rc, open(os.path.join(d, "o.txt")).read()[-300:])))
+        shutil.rmtree(d, ignore_errors=True)
+        return (gs, ts), errs
+    for level in ("gene", "transcript", "transcript_model"):
+        try:
+            h0, ung = run.parse_counts(run.find(out, "OUT", ".%s_counts.tsv" % level))
+            ung = {k: float(v[0][0]) for k, v in (ung or {}).items() if not k.startswith("__")}
+            header, rows = run.parse_counts(run.find(out, "OUT", ".%s_grouped_counts.tsv" % level))
+            sums = {}
+            for ft, vals in (rows or {}).items():
+                if ft.startswith("__"):
+                    continue
+                sums[ft] = sums.get(ft, 0.0) + sum(float(x) for v in vals for x in v)
+            lin = {}
+            for l in open(run.find(out, "OUT", ".%s_grouped_counts_linear.tsv" % level)):
+                if l.startswith("#") or not l.strip():
+                    continue
+                ft, gname, x = l.rstrip("\n").split("\t")
+                lin[ft] = lin.get(ft, 0.0) + float(x)
+        except Exception as e:  # noqa
+            errs.append(("tables-unreadable", "%s: %r" % (level, e)))
+            continue
+        for name, tab in (("matrix", sums), ("linear", lin)):
+            bad = sorted(f for f in set(ung) | set(tab) if abs(ung.get(f, 0.0) - tab.get(f, 0.0)) > 0.011)
+            if bad:
+                f = bad[0]
+                errs.append(("not-a-partition:%s:%s" % (level, name), "%s %s: per-group values of the %s table sum to %.2f, the ungrouped table says %.2f (%d features differ)" %
+                             (level, f, name, tab.get(f, 0.0), ung.get(f, 0.0), len(bad))))
+    shutil.rmtree(d, ignore_errors=True)
+    return (gs, ts), errs
+
+
 def run(ctx):
     quick = ctx.tier == "quick"
     n1, bad1 = l1_groupers(ctx.scratch)
@@ -413,6 +465,15 @@ def run(ctx):
                           (key[0], key[1], key[2], key[3], "" if pat is None else " loci->files %s high_memory=%s" % (list(pat), key[5]), msg),
                           {"mode": key[0], "format": key[1], "order": key[2], "threads": key[3], "pattern": pat, "himem": key[5] if len(key) > 5 else False})
     ctx.note("file_name mode: %d runs over all patterns of locus presence in %d BAM files (x memory mode)" % (npat, nf))
+    from props import c02
+    sp = [(g, t) for g in c02.STRATEGIES for t in c02.STRATEGIES]
+    if quick:
+        sp = [(g, t) for g, t in sp if g == t or (g, t) in (("unique_splicing_consistent", "unique_only"), ("all", "unique_only"), ("unique_only", "all"))]
+    for key, errs in core.pmap(l3b_case, [(g, t, ctx.scratch) for g, t in sp]):
+        nl3 += 1
+        for k, msg in errs:
+            ctx.violation("l3b:%s" % k, "gene strategy %s, transcript strategy %s: %s" % (key[0], key[1], msg), {"l3b": list(key)})
+    ctx.note("partition oracle on the all-types world: %d strategy pairs" % len(sp))
     ctx.note("L3 pipeline runs: %d" % nl3)
     ctx.coverage.update({
         "evaluations": total + nl3, "distinct_nontrivial": nontriv + nl3,
@@ -427,6 +488,9 @@ def run(ctx):
 
 
 def replay(ctx, case):
+    if "l3b" in case:
+        key, errs = l3b_case((case["l3b"][0], case["l3b"][1], ctx.scratch))
+        return errs[0][1] if errs else None
     if case.get("mode") and "format" in case and "reads" not in case:
         args = (case["mode"], case["format"], tuple(case["order"]) if case.get("order") else None, case["threads"], ctx.scratch)
         if case.get("pattern") is not None:
